@@ -780,4 +780,108 @@ def mulFeeNarrowFirst (m : Int) (v : Nat) : Option Nat :=
     | none => none
     | some q => some (if Int.tmod (m * (v : Int)) P > 0 then (q + 1) % U64 else q)
 
+/-! ### several chains of one chain type, several signatures per request (C06)
+
+`State` holds ONE queue (the turnstone queue of `targetChain`).  Every active chain of the chain type has such a
+queue (`SupportedQueues` iterates the chain infos), the message ids of all of them come from one counter, and ONE
+`MsgAddMessagesSignatures` carries a LIST of signatures, each naming its queue; `Keeper.AddMessageSignature`
+loops over them: `getConsensusQueue`, `valset.GetSigningKey(validator, chain OF THAT QUEUE, claimed address)`,
+`Queue.AddSignature`.  The message handler runs on a cached context, so a failing entry discards the request. -/
+
+/-- `valset.GetSigningKey` for a given chain (`signingKey` is the instance for `targetChain`) -/
+def signingKeyOn (chain : Nat) (regs : List (Nat × List Account)) (val addr : Nat) : Option Nat :=
+  match assoc? regs val with
+  | none => none
+  | some accts => (accts.find? (fun a => a.chain == chain && a.addr == addr)).map (·.raw)
+
+/-- the registry and the turnstone queues of the chains of one chain type: chain ↦ queue (`none` = the chain
+    has no queue: it is not an active chain) -/
+structure MultiQ where
+  regs : List (Nat × List Account) := []
+  queues : Nat → Option (List Item) := fun _ => none
+
+def queueOf (w : MultiQ) (chain : Nat) : Option (List Item) := w.queues chain
+
+def setQueue (w : MultiQ) (chain : Nat) (q : List Item) : MultiQ :=
+  { w with queues := fun c => if c = chain then some q else w.queues c }
+
+/-- one `ConsensusMessageSignature` of a request: queue (as its chain), message id, claimed address, and —
+    as in `Sig` — who really made the signature, over what, in which byte form -/
+structure SigEntry where
+  chain : Nat
+  id : Nat
+  addr : Nat
+  by_ : Nat
+  for_ : SignBytes
+  wire : Wire := .canonical
+deriving DecidableEq, Repr
+
+/-- `Queue.AddSignature` on one queue with the key the caller fetched: message look-up, duplicate loop,
+    `VerifySignature`, store -/
+def storeSigned (q : List Item) (val key : Nat) (e : SigEntry) : List Item × SignRes :=
+  match getItem q e.id with
+  | none => (q, .notFound)
+  | some it =>
+    match dupCheck it.sigs key val with
+    | some r => (q, r)
+    | none =>
+      if verifies e.wire key e.by_ e.for_ (bytesOf it) then
+        (setItem q (addSig it ⟨val, e.addr, key, e.by_, e.for_, e.wire⟩), .ok)
+      else (q, .badSig)
+
+/-- where the loop takes the signing key of an entry from.  `memo = false` is the code that exists: a
+    `GetSigningKey` call per entry, for the chain of the entry's queue.  `memo = true` is a variant that
+    remembers, within one request, the key fetched for a claimed address string whatever chain it was
+    fetched for (used only by a negation witness in Props/C06.lean). -/
+def keyFor (memo : Bool) (cache : List (Nat × Nat)) (w : MultiQ) (val : Nat) (e : SigEntry) : Option Nat :=
+  if memo then
+    match assoc? cache e.addr with
+    | some k => some k
+    | none => signingKeyOn e.chain w.regs val e.addr
+  else signingKeyOn e.chain w.regs val e.addr
+
+/-- the loop of `Keeper.AddMessageSignature`; stops at the first entry that fails (an unknown queue is
+    reported as `notFound`) -/
+def signLoop (memo : Bool) (val : Nat) : List (Nat × Nat) → MultiQ → List SigEntry → MultiQ × SignRes
+  | _, w, [] => (w, .ok)
+  | cache, w, e :: rest =>
+    match queueOf w e.chain with
+    | none => (w, .notFound)
+    | some q =>
+      match keyFor memo cache w val e with
+      | none => (w, .noKey)
+      | some key =>
+        if (storeSigned q val key e).2 == .ok then
+          signLoop memo val ((e.addr, key) :: cache) (setQueue w e.chain (storeSigned q val key e).1) rest
+        else (w, (storeSigned q val key e).2)
+
+/-- one `MsgAddMessagesSignatures` of validator `val`: all entries are stored, or none -/
+def signRequestWith (memo : Bool) (w : MultiQ) (val : Nat) (es : List SigEntry) : MultiQ × SignRes :=
+  if (signLoop memo val [] w es).2 == .ok then signLoop memo val [] w es
+  else (w, (signLoop memo val [] w es).2)
+
+def signRequest (w : MultiQ) (val : Nat) (es : List SigEntry) : MultiQ × SignRes := signRequestWith false w val es
+
+/-- `PutMessageInQueue` on the queue of `chain` with the id the shared counter hands out -/
+def putOn (w : MultiQ) (chain id : Nat) (kind : Kind) (content sender assignee remote : Nat) (reqEst : Bool) : MultiQ :=
+  setQueue w chain ((queueOf w chain).getD [] ++ [newItem id kind content sender assignee remote reqEst])
+
+/-- histories of a world of several chains: registration, enqueueing on any chain, requests of any length -/
+inductive MQOp where
+  | register (val : Nat) (accts : List Account)
+  | put (chain : Nat) (kind : Kind) (content sender assignee remote : Nat) (reqEst : Bool)
+  | request (val : Nat) (es : List SigEntry)
+
+structure MQState where
+  w : MultiQ := {}
+  nextId : Nat := 0
+
+def mqapply (s : MQState) : MQOp → MQState
+  | .register v a =>
+    if collides s.w.regs v a then s else { s with w := { s.w with regs := upsert s.w.regs v a } }
+  | .put c k ct sd a r q => { w := putOn s.w c (s.nextId + 1) k ct sd a r q, nextId := s.nextId + 1 }
+  | .request v es => { s with w := (signRequest s.w v es).1 }
+
+def mqrun (ops : List MQOp) : MQState := ops.foldl mqapply {}
+
 end Paloma.Queue
